@@ -31,6 +31,9 @@ pub fn scripts_dir() -> String {
     w("num.lua", "function validate(ctx, content)\n  return 42\nend\n");
     w("novalidate.lua", "x = 1\n");
     w("syntax.lua", "function validate(ctx, content\n");
+    w("probe.lua", include_str!("../../scripts/probe.lua"));
+    w("escape.lua", include_str!("../../scripts/escape.lua"));
+    w("side.lua", "return 42\n");
     w("ctx.lua", "function validate(ctx, content)\n  local keys = {}\n  for k, v in pairs(ctx.attrs) do keys[#keys + 1] = k .. '=' .. v end\n  table.sort(keys)\n  return ctx.file .. '|' .. tostring(ctx.line) .. '|' .. table.concat(keys, ';') .. '|' .. content\nend\n");
     d
 }
